@@ -1,5 +1,5 @@
 From Coq Require Import NArith.
-From C18 Require Import Model.
+From C18 Require Import Model Spec.
 Require Extraction.
 Require Import ExtrOcamlBasic.
-Extraction "model.ml" init step run current cos get depth_of halted co_st co_stored storage STORAGE_SIZE N.of_nat.
+Extraction "model.ml" init step run current cos get depth_of halted co_st co_stored storage STORAGE_SIZE N.of_nat spec_init spec_step s_running s_depth_of ss_halted.
